@@ -147,7 +147,15 @@ fn lookup(w: &W, d: usize, x: usize) -> Option<ActorCell> {
     found.or_else(|| g.proxies.get(&(d, x)).cloned())
 }
 
+/// free-running family: the "begin" line of a call and the call's synchronous part (the send into the proxy's
+/// mailbox, done by the first poll) happen under this lock, so that the order of the begin lines is the send order
+static FREE_SEND_LOCK: std::sync::atomic::AtomicBool = std::sync::atomic::AtomicBool::new(false);
+
 async fn caller(w: W, s: u32, ops: Vec<ROp>) {
+    caller_impl(w, s, ops, false).await
+}
+
+async fn caller_impl(w: W, s: u32, ops: Vec<ROp>, free: bool) {
     let mut q = 0u32;
     let dn = ["ab", "ba"];
     for op in ops {
@@ -166,9 +174,26 @@ async fn caller(w: W, s: u32, ops: Vec<ROp>) {
                 let Some(cell) = lookup(&w, d, x) else { continue };
                 q += 1;
                 let r: ActorRef<ProbeMsg> = cell.into();
-                verif::emit_kv("obs.call_begin", 0, 0, vec![kvs("s", &sn(s)), kvi("q", q as i64), kvs("k", "call"), kvs("dir", dn[d]), kvs("x", &xn(x))]);
-                let t0 = tokio::time::Instant::now();
-                let res = r.call(|tx| ProbeMsg::Call(s, q, tx), Some(Duration::from_millis(timeout_ms))).await;
+                let t0;
+                let res = if free {
+                    use std::sync::atomic::Ordering::SeqCst;
+                    while FREE_SEND_LOCK.compare_exchange(false, true, SeqCst, SeqCst).is_err() {
+                        std::hint::spin_loop();
+                    }
+                    verif::emit_kv("obs.call_begin", 0, 0, vec![kvs("s", &sn(s)), kvi("q", q as i64), kvs("k", "call"), kvs("dir", dn[d]), kvs("x", &xn(x))]);
+                    t0 = tokio::time::Instant::now();
+                    let mut fut = Box::pin(r.call(|tx| ProbeMsg::Call(s, q, tx), Some(Duration::from_millis(timeout_ms))));
+                    let first = futures::poll!(fut.as_mut());
+                    FREE_SEND_LOCK.store(false, SeqCst);
+                    match first {
+                        std::task::Poll::Ready(v) => v,
+                        std::task::Poll::Pending => fut.await,
+                    }
+                } else {
+                    verif::emit_kv("obs.call_begin", 0, 0, vec![kvs("s", &sn(s)), kvi("q", q as i64), kvs("k", "call"), kvs("dir", dn[d]), kvs("x", &xn(x))]);
+                    t0 = tokio::time::Instant::now();
+                    r.call(|tx| ProbeMsg::Call(s, q, tx), Some(Duration::from_millis(timeout_ms))).await
+                };
                 // at the deadline the caller's own timer races with the timers of the port converters
                 // (which drop the port): "no answer" then shows as Timeout or as SenderError
                 let at_deadline = t0.elapsed() >= Duration::from_millis(timeout_ms);
@@ -485,6 +510,272 @@ pub fn one_run(sc: &Scenario, ex: &mut Explorer, dump: bool) -> (Vec<Value>, Val
 }
 
 // ------------------------------------------------------------------------------------------------
+// free-running variant: the same two nodes on a multi-thread runtime with the scheduler off. What engine T cannot
+// interleave (two threads inside synchronous code, e.g. the pid registry's remove-then-notify against a session
+// handling a request frame) happens here by real parallelism. Only observations whose position in the log is safe
+// are kept: an intent is logged before its call, a result after it; a probe's exit is not logged at all - the
+// controller logs the stop *request* and the specification takes the exit silently some time later.
+// ------------------------------------------------------------------------------------------------
+fn final_obs(w: &W, total: usize) -> Value {
+    let members: Vec<ractor::ActorId> = ractor::pg::get_members(&GROUP.to_string()).iter().map(|c| c.get_id()).collect();
+    let mut px = vec![];
+    for d in 0..2 {
+        for x in 0..total {
+            let cell = lookup(w, d, x);
+            let (st, grp, refuses) = match &cell {
+                None => ("none", 0, 0),
+                Some(c) => {
+                    let st = if c.get_status() == ActorStatus::Running { "live" } else if c.get_status() >= ActorStatus::Stopping { "stopped" } else { "starting" };
+                    let grp = i64::from(members.contains(&c.get_id()));
+                    let refuses = if st == "stopped" {
+                        let r: ActorRef<ProbeMsg> = c.clone().into();
+                        i64::from(r.cast(ProbeMsg::Cast(0, 0)).is_err())
+                    } else {
+                        0
+                    };
+                    (st, grp, refuses)
+                }
+            };
+            px.push(json!({"dir": if d == 0 { "ab" } else { "ba" }, "x": xn(x), "st": st, "grp": grp, "refuses": refuses}));
+        }
+    }
+    let mut pr = vec![];
+    let g = w.lock().unwrap();
+    for x in 0..total {
+        let (st, grp) = match &g.probes[x] {
+            None => ("none", 0),
+            Some(p) => (if p.get_status() == ActorStatus::Running { "alive" } else { "dead" }, i64::from(members.contains(&p.get_id()))),
+        };
+        pr.push(json!({"x": xn(x), "st": st, "grp": grp}));
+    }
+    json!({"px": px, "pr": pr})
+}
+
+async fn free_task(w: W, seed: u64, total: usize) {
+    let mut rng = Rng(seed);
+    let Some((a, _ha)) = cluster2::spawn_node("a", "cookie").await else { return };
+    let Some((b, _hb)) = cluster2::spawn_node("b", "cookie").await else { return };
+    {
+        let (dd, aa) = cluster2::pipe_pair("junk");
+        drop(dd);
+        let _ = b.cast(ractor_cluster::NodeServerMessage::ConnectionOpenedExternal { stream: Box::new(aa), is_server: true });
+        let _ = ractor::call_t!(b, ractor_cluster::NodeServerMessage::GetSessions, 10_000);
+    }
+    let mut handles = vec![];
+    for x in 0..total {
+        if let Ok((p, h)) = Actor::spawn(None, Probe { x, hold: false }, ()).await {
+            w.lock().unwrap().probes[x] = Some(p);
+            handles.push(h);
+        }
+    }
+    let (dd, aa, relay) = cluster2::relayed_pair("c1", rng.next(), None);
+    w.lock().unwrap().relay = Some(relay.clone());
+    cluster2::dial_with("c1", 7, dd, aa, &a, &b).await;
+    let mut tries = 0;
+    loop {
+        tries += 1;
+        if tries > 3000 {
+            return;
+        }
+        ractor::concurrency::sleep(Duration::from_millis(1)).await;
+        let (Some(sa), Some(sb)) = (cluster2::ready_session(&a).await, cluster2::ready_session(&b).await) else { continue };
+        {
+            let mut g = w.lock().unwrap();
+            g.sess = [Some(sa.0.get_cell()), Some(sb.0.get_cell())];
+            g.node_ids = [sa.1, sb.1];
+        }
+        if (0..total).all(|x| lookup(&w, 0, x).is_some() && lookup(&w, 1, x).is_some()) {
+            break;
+        }
+    }
+    {
+        let g = w.lock().unwrap();
+        if g.node_ids[0] == g.node_ids[1] {
+            return;
+        }
+    }
+    w.lock().unwrap().started = true;
+    if std::env::var("RAF_TIMING").is_ok() {
+        eprintln!("ready after {} tries", tries);
+    }
+    verif::emit_kv("obs.start", 0, 0, vec![]);
+    // background load through every proxy (not logged: sender s0)
+    let stop_flood = Arc::new(std::sync::atomic::AtomicBool::new(false));
+    let mut flooders = vec![];
+    for d in 0..2 {
+        for x in 0..total {
+            let Some(cell) = lookup(&w, d, x) else { continue };
+            let r: ActorRef<ProbeMsg> = cell.into();
+            let sf = stop_flood.clone();
+            flooders.push(tokio::spawn(async move {
+                while !sf.load(std::sync::atomic::Ordering::Relaxed) {
+                    for _ in 0..32 {
+                        if r.cast(ProbeMsg::Cast(0, 0)).is_err() {
+                            return;
+                        }
+                    }
+                    tokio::task::yield_now().await;
+                }
+            }));
+        }
+    }
+    // two callers, three calls each, to probes that may be stopping meanwhile
+    let mut callers = vec![];
+    for s in 1..=2u32 {
+        let ops: Vec<ROp> = (0..3).map(|_| ROp::Call { d: rng.below(2), x: rng.below(total), timeout_ms: 250 }).collect();
+        callers.push(tokio::spawn(caller_impl(w.clone(), s, ops, true)));
+    }
+    // the controller stops the probes one after the other
+    let mut order: Vec<usize> = (0..total).collect();
+    for i in (1..order.len()).rev() {
+        order.swap(i, rng.below(i + 1));
+    }
+    let nstop = 1 + rng.below(total);
+    for x in order.into_iter().take(nstop) {
+        tokio::time::sleep(Duration::from_micros(200 + rng.below(1500) as u64)).await;
+        let p = w.lock().unwrap().probes[x].clone();
+        if let Some(p) = p {
+            verif::emit_kv("obs.stopreq", 0, 0, vec![kvs("x", &xn(x))]);
+            p.stop(Some("verif".into()));
+        }
+    }
+    for c in callers {
+        let _ = tokio::time::timeout(Duration::from_secs(20), c).await;
+    }
+    tokio::time::sleep(Duration::from_millis(2)).await;
+    stop_flood.store(true, std::sync::atomic::Ordering::Relaxed);
+    for f in flooders {
+        let _ = f.await;
+    }
+    // every path is FIFO: once an (unlogged) call through a proxy has come back, everything sent that way before it
+    // has reached the probe - no logged request is still on its way when the final observation is taken
+    for d in 0..2 {
+        for x in 0..total {
+            let alive = w.lock().unwrap().probes[x].as_ref().map(|p| p.get_status() == ActorStatus::Running).unwrap_or(false);
+            if !alive {
+                continue;
+            }
+            if let Some(cell) = lookup(&w, d, x) {
+                let r: ActorRef<ProbeMsg> = cell.into();
+                let synced = matches!(r.call(|tx| ProbeMsg::Call(0, 0, tx), Some(Duration::from_secs(10))).await, Ok(CallResult::Success(_)));
+                if !synced {
+                    // the path to a live probe did not answer within 10 s (an overloaded machine): logged requests may still
+                    // be on their way, the run cannot be judged and is dropped (counted in bad_runs)
+                    return;
+                }
+            }
+        }
+    }
+    // wait until the remote references reflect their originals (or give up: the final observation then shows it)
+    let t0 = std::time::Instant::now();
+    loop {
+        let settled = {
+            let probes: Vec<Option<ActorRef<ProbeMsg>>> = w.lock().unwrap().probes.clone();
+            (0..total).all(|x| {
+                let dead = probes[x].as_ref().map(|p| p.get_status() == ActorStatus::Stopped).unwrap_or(true);
+                let running = probes[x].as_ref().map(|p| p.get_status() == ActorStatus::Running).unwrap_or(false);
+                (0..2).all(|d| match lookup(&w, d, x) {
+                    None => true,
+                    Some(c) => (dead && c.get_status() == ActorStatus::Stopped) || (running && c.get_status() == ActorStatus::Running),
+                })
+            })
+        };
+        if settled || t0.elapsed() > Duration::from_secs(10) {
+            break;
+        }
+        tokio::time::sleep(Duration::from_millis(2)).await;
+    }
+    if std::env::var("RAF_TIMING").is_ok() {
+        eprintln!("settled after {:?}", t0.elapsed());
+    }
+    tokio::time::sleep(Duration::from_millis(20)).await;
+    let mut f = final_obs(&w, total);
+    let up = cluster2::ready_session(&a).await.is_some() && cluster2::ready_session(&b).await.is_some();
+    f["up"] = json!(i64::from(up));
+    w.lock().unwrap().fin = Some(f);
+    verif::emit_kv("obs.final", 0, 0, vec![]);
+    a.stop(None);
+    b.stop(None);
+    for p in w.lock().unwrap().probes.iter().flatten() {
+        p.stop(None);
+    }
+}
+
+pub fn one_run_free(seed: u64) -> (Vec<Value>, Value, bool) {
+    let total = 3;
+    let w: W = Arc::new(Mutex::new(World { probes: vec![None; total], sess: [None, None], node_ids: [0, 0], proxies: HashMap::new(), relay: None, fin: None, started: false }));
+    let _ = RUN_SEQ.fetch_add(1, std::sync::atomic::Ordering::SeqCst);
+    ractor_cluster::verif::clear_connection_ids();
+    verif::enable(true);
+    let _ = verif::take_events();
+    verif::sched_enable(false);
+    let rt = tokio::runtime::Builder::new_multi_thread().worker_threads(4).enable_all().build().expect("runtime");
+    rt.block_on(free_task(w.clone(), seed, total));
+    let events = verif::take_events();
+    verif::enable(false);
+    rt.shutdown_background();
+    verif::enable(true);
+    let _ = verif::take_events();
+    let g = w.lock().unwrap();
+    let mut evs: Vec<Value> = vec![];
+    let mut started = false;
+    for e in &events {
+        if e.a == "obs.start" {
+            started = true;
+            continue;
+        }
+        if e.a == "obs.final" {
+            break;
+        }
+        if !started || !["obs.call_begin", "obs.ret", "obs.recv", "obs.reply", "obs.stopreq"].contains(&e.a.as_str()) {
+            continue;
+        }
+        if kv_s(e, "s").as_deref() == Some("s0") {
+            continue; // background load
+        }
+        evs.push(Value::Object(base(&e.a, e)));
+    }
+    let fin = g.fin.clone();
+    let ok = fin.is_some();
+    let f = fin.unwrap_or_else(|| json!({"px": [], "pr": [], "up": 0}));
+    let mut m = Map::new();
+    for (k, v) in [("a", json!("obs.end")), ("who", json!("drv")), ("obj", json!("")), ("d", json!(0)), ("t", json!(0))] {
+        m.insert(k.into(), v);
+    }
+    for k in ["x", "s", "k", "dir", "r", "vs"] {
+        m.insert(k.into(), json!(""));
+    }
+    for k in ["q", "vq", "tag", "ok", "hit"] {
+        m.insert(k.into(), json!(0));
+    }
+    m.insert("ok".into(), json!(i64::from(ok)));
+    m.insert("px".into(), f["px"].clone());
+    m.insert("pr".into(), f["pr"].clone());
+    m.insert("up".into(), f["up"].clone());
+    evs.push(Value::Object(m));
+    let init: Vec<Value> = (0..total).map(|x| json!({"x": xn(x), "st": "alive"})).collect();
+    let meta = json!({"family": "remoteactor-free", "scenario": format!("free seed={seed}"), "init": init, "sched": [], "steps": 0, "quiescent": true, "started": g.started});
+    (evs, meta, !ok || !g.started)
+}
+
+pub fn batch_free(out: &str, tier: &str, seed: u64) -> Value {
+    let mut b = Batch::new(Some(out));
+    let n = if tier == "thorough" { 600 } else { 120 };
+    let mut rng = Rng(seed ^ 0x66726565);
+    let mut bad_runs = 0u64;
+    for _ in 0..n {
+        let (evs, meta, bad) = one_run_free(rng.next());
+        if bad {
+            bad_runs += 1;
+            continue; // the nodes never got ready: nothing was exercised
+        }
+        b.run(meta, &evs);
+    }
+    b.finish();
+    json!({"family": "remoteactor-free", "runs": b.runs, "events": b.events, "distinct": b.hashes.len(), "distinct_nontrivial": b.hashes.len(), "bad_runs": bad_runs, "samples": b.samples})
+}
+
+// ------------------------------------------------------------------------------------------------
 // scenarios
 // ------------------------------------------------------------------------------------------------
 pub fn micro_scenarios() -> Vec<Scenario> {
@@ -688,6 +979,7 @@ pub fn dispatch(cmd: &str, a: &HashMap<String, String>) -> Option<Value> {
     let (out, tier, seed) = crate::common(a);
     match cmd {
         "remoteactor" => Some(batch(&out, &tier, seed)),
+        "remoteactor-free" => Some(batch_free(&out, &tier, seed)),
         "remoteactor-demo" => {
             let which: usize = a.get("scenario").and_then(|s| s.parse().ok()).unwrap_or(0);
             let sc = micro_scenarios()[which].clone();
